@@ -518,6 +518,8 @@ impl Program {
     /// Return the next token in the stream, if it exists,
     /// but don't advance our position in it.
     pub fn peek_next_token(&self) -> Option<Token> {
+        #[cfg(feature = "verif-hooks")]
+        crate::verif_hooks::count_token_read();
         self.tokens().get(self.location.token_index).cloned()
     }
 
@@ -633,5 +635,65 @@ impl Program {
                 Some(self.get_prev_location())
             }
         };
+    }
+}
+
+#[cfg(feature = "verif-hooks")]
+impl Program {
+    pub(crate) fn verif_fill_snapshot(&self, snapshot: &mut crate::verif_hooks::Snapshot) {
+        use crate::verif_hooks::{value_kind_and_text, Loc};
+        snapshot.location = Loc::from(self.location);
+        snapshot.immediate_line_tokens = self.immediate_line.len();
+        snapshot.breakpoint = self
+            .breakpoint
+            .map(|nloc| Loc::from(ProgramLocation::from(nloc)));
+        snapshot.stack = self
+            .stack
+            .iter()
+            .map(|frame| {
+                (
+                    Loc::from(frame.return_location),
+                    frame
+                        .variables
+                        .verif_entries()
+                        .into_iter()
+                        .map(|(name, value)| {
+                            let (kind, text) = value_kind_and_text(&value);
+                            (name, kind, text)
+                        })
+                        .collect(),
+                )
+            })
+            .collect();
+        snapshot.loops = self
+            .loop_stack
+            .iter()
+            .map(|info| {
+                (
+                    info.symbol.to_string(),
+                    Loc::from(info.location),
+                    info.to_value,
+                    info.step_value,
+                )
+            })
+            .collect();
+        let mut functions: Vec<_> = self
+            .functions
+            .iter()
+            .map(|(name, def)| {
+                (
+                    name.to_string(),
+                    def.arguments.iter().map(|arg| arg.to_string()).collect(),
+                    Loc::from(ProgramLocation::from(def.location)),
+                )
+            })
+            .collect();
+        functions.sort_by(|a: &(String, Vec<String>, Loc), b| a.0.cmp(&b.0));
+        snapshot.functions = functions;
+        snapshot.data_cursor = self
+            .data_iterator
+            .as_ref()
+            .map(|iterator| iterator.verif_state());
+        self.numbered_lines.verif_fill_snapshot(snapshot);
     }
 }
